@@ -211,7 +211,14 @@ func runC06(c C06Case) *Result {
 			nBefore := len(fr.before.Hashes)
 			for _, in := range insts {
 				in.ar.next()
-				err := in.Acc().Undo(uint64(fr.b.Add), in.ar.proofTH(fr.proofT, fr.proofH), in.ar.hashes(fr.delH), in.ar.hashes(fr.roots))
+				proofH := fr.proofH
+				if in.M != nil && in.M.Full && i%2 == 1 {
+					// a full forest rebuilds the proof hashes itself when the undo record carries the targets only
+					// (undoDeletion: "Since we're full, we can just build the proofs"): every other undo uses that
+					proofH = nil
+					res.count("full-forest-undos-from-a-targets-only-record", 1)
+				}
+				err := in.Acc().Undo(uint64(fr.b.Add), in.ar.proofTH(fr.proofT, proofH), in.ar.hashes(fr.delH), in.ar.hashes(fr.roots))
 				if err != nil {
 					return res.failf("step %d: %s Undo (depth %d) of block {del %v, add %d} failed: %v", i, in.Cfg, depth, fr.b.Del, fr.b.Add, err)
 				}
